@@ -339,7 +339,7 @@ func runC14(t *testing.T, spec RunSpec) *Verdict {
 		return v
 	}
 	progs := []c14Prog{p}
-	if other := spec.P("repeat_after", -1); other >= 0 && other < len(c14Corpus) && c14Baseline(t, c14Corpus[other], backend).skip == "" {
+	if other := spec.P("repeat_after", -1); other >= 0 && other < len(c14Corpus) && c14Baseline(t, c14Corpus[other], backend).skip == "" && !readsClock(p.prog) {
 		// the same program again in the same process after another program
 		progs = []c14Prog{p, c14Corpus[other], p}
 	}
@@ -379,6 +379,34 @@ func runC14(t *testing.T, spec RunSpec) *Verdict {
 		}
 	}
 	return v
+}
+
+// readsClock: a program that prints the current time legitimately differs
+// between two runs at different simulated instants; it is not repeated in-process.
+func readsClock(p Program) bool {
+	seen := map[string]bool{}
+	todo := []string{p.Entry}
+	for len(todo) > 0 {
+		m := todo[0]
+		todo = todo[1:]
+		if seen[m] {
+			continue
+		}
+		seen[m] = true
+		src := p.Modules[m]
+		if strings.Contains(src, "now(") {
+			return true
+		}
+		for _, ln := range strings.Split(src, "\n") {
+			ln = strings.TrimSpace(ln)
+			if strings.HasPrefix(ln, "import ") {
+				if i := strings.LastIndex(ln, " from "); i >= 0 {
+					todo = append(todo, strings.TrimSuffix(strings.TrimSpace(ln[i+6:]), ";"))
+				}
+			}
+		}
+	}
+	return false
 }
 
 func siteList(m map[string]int) []string {
@@ -430,7 +458,8 @@ func planC14(t *testing.T, tier string, seed uint64) ([]RunSpec, error) {
 	for pi, p := range c14Corpus {
 		for backend := 0; backend < 2; backend++ {
 			base := c14Baseline(t, p, backend)
-			if base.skip != "" || base.steps > 1_500_000 {
+			if base.skip != "" || base.steps > 1_500_000 || readsClock(p.prog) {
+				// (a program that prints the current time depends on when it runs, by design)
 				continue
 			}
 			n := seeds
